@@ -285,6 +285,10 @@ func c10Mutations(typ string, base ref.V) []payMut {
 		oor("pol", "uint=2^63", u, true)
 		ok := ref.Policy{{Kind: "==", Sel: ref.Sel{{Kind: ref.SField, Name: "a"}}, Val: ref.Int(ref.MaxSafe)}}.ToV()
 		oor("pol", "int=2^53-1", ok, false)
+		first := ref.Policy{{Kind: "==", Sel: ref.Sel{{Kind: ref.SField, Name: "a"}}, Val: ref.Int(1 << 53)}, {Kind: "==", Sel: ref.Sel{{Kind: ref.SField, Name: "b"}}, Val: ref.Int(1)}, {Kind: "like", Sel: ref.Sel{{Kind: ref.SField, Name: "c"}}, Pat: "x*"}}.ToV()
+		oor("pol", "int=2^53-in-first-of-three-statements", first, true)
+		inAnd := ref.Policy{{Kind: "and", Subs: []ref.Stmt{{Kind: ">", Sel: ref.Sel{{Kind: ref.SField, Name: "a"}}, Val: ref.Int(-(1 << 53))}, {Kind: "==", Sel: ref.Sel{{Kind: ref.SField, Name: "b"}}, Val: ref.Int(1)}}}}.ToV()
+		oor("pol", "int=-2^53-first-under-and", inAnd, true)
 		oor("pol", "not-a-statement", ref.List(ref.Int(1)), true)
 		oor("pol", "unknown-operator", ref.List(ref.List(ref.Str("==="), ref.Str(".a"), ref.Int(1))), true)
 		oor("pol", "bad-selector", ref.List(ref.List(ref.Str("=="), ref.Str("a"), ref.Int(1))), true)
@@ -293,6 +297,11 @@ func c10Mutations(typ string, base ref.V) []payMut {
 		oor("args", "nested-int=-2^53", ref.Map(ref.E("a", ref.List(ref.Map(ref.E("b", ref.Int(-(1<<53))))))), true)
 		oor("args", "uint=2^64-1", ref.Map(ref.E("a", ref.Uint(math.MaxUint64))), true)
 		oor("args", "int=2^53-1", ref.Map(ref.E("a", ref.Int(ref.MaxSafe))), false)
+		// the offending integer among others - first, in the middle - with harmless values after it
+		oor("args", "int=2^53-first-of-two", ref.Map(ref.E("a", ref.Int(1<<53)), ref.E("b", ref.Str("fine"))), true)
+		oor("args", "int=2^53-middle-of-three", ref.Map(ref.E("a", ref.Str("fine")), ref.E("b", ref.Int(-(1<<53))), ref.E("c", ref.Int(1))), true)
+		oor("args", "nested-int=2^53-first-of-many", ref.Map(ref.E("a", ref.Map(ref.E("x", ref.List(ref.Int(1), ref.Int(1<<53), ref.Int(2))))), ref.E("b", ref.Int(1)), ref.E("c", ref.List()), ref.E("d", ref.Null()), ref.E("e", ref.Bool(true))), true)
+		oor("args", "uint=2^63-before-valid", ref.Map(ref.E("a", ref.Uint(1<<63)), ref.E("zz", ref.Int(0))), true)
 		oor("prf", "list-of-ints", ref.List(ref.Int(1)), true)
 		oor("prf", "list-of-strings", ref.List(ref.Str("bafy")), true)
 	}
